@@ -115,6 +115,12 @@ impl DoviRpu {
 
         // Ignore trailing bytes
         let rpu_end = data.len() - trailing_zeroes;
+
+        // Prefix byte, CRC32 and final byte at the very least
+        if rpu_end < 6 {
+            bail!("Invalid RPU length: {}", rpu_end);
+        }
+
         let last_byte = data[rpu_end - 1];
 
         // Minus 4 bytes for the CRC32, 1 for the 0x80 ending byte
